@@ -42,6 +42,9 @@ class Gen:
         r = self.rng.random()
         if r < 0.4:
             return ""
+        if r < 0.47:
+            # first content line indented deeper than a later one (cleandoc keeps that indentation)
+            return f'{ind}"""\n{ind}        deeper first {self.counter}\n{ind}later line\n{ind}"""\n'
         if r < 0.7:
             return f'{ind}"""One line doc {self.counter}."""\n'
         return f'{ind}"""Summary {self.counter}.\n\n{ind}Longer text\n{ind}over lines.\n{ind}"""\n'
